@@ -368,7 +368,16 @@ def replay(cfg, events):
         for e in events:
             e = dict(e)
             op = e["op"]
-            if op == "data":
+            if op == "data" and e.get("inplace") and g is not None and cfg.get("facade", "graph") == "graph":
+                # the same graph object, edited in place to the new content (an update between two reads)
+                want = {tuple(conc(x) for x in q[:3]) for q in e["quads"] if q[3] == "D"}
+                have = set(g)
+                for t in have - want:
+                    g.remove(t)
+                for t in want - have:
+                    g.add(t)
+                e.setdefault("graphs", [])
+            elif op == "data":
                 g = build(cfg, e)
                 e.setdefault("graphs", [])
             elif op == "prepare":
